@@ -845,3 +845,295 @@ Section ConvRows.
     destruct (rgb_new_small b _ _ _ Wb Pb Rb B1 B2 B3) as (-> & -> & -> & V). auto.
   Qed.
 End ConvRows.
+
+(* ================================================================= 12. C13: luma *)
+Lemma luma888_lumaf c : luma888 c = lumaf (get_r via_rgb c) (get_g via_rgb c) (get_b via_rgb c).
+Proof. reflexivity. Qed.
+
+(* the constants of the regenerated Gen/ColorConsts.v: non-negative weights that sum to the divisor, rounding
+   constant half the divisor, no overflow of u16 (and of the final `as u8`) for channels up to 255 *)
+Definition luma_consts_ok : bool :=
+  (0 <=? luma_wr) && (0 <=? luma_wg) && (0 <=? luma_wb) && (0 <=? luma_round) && (luma_round <? luma_div)
+  && (luma_wr + luma_wg + luma_wb =? luma_div) && (2 * luma_round =? luma_div)
+  && ((luma_wr + luma_wg + luma_wb) * 255 + luma_round <? 65536)
+  && ((luma_wr + luma_wg + luma_wb) * 255 + luma_round <? 256 * luma_div).
+
+Lemma luma_consts : luma_consts_ok = true.
+Proof. vm_compute. reflexivity. Qed.
+
+Lemma lumaf_plain r g b : 0 <= r <= 255 -> 0 <= g <= 255 -> 0 <= b <= 255 ->
+  lumaf r g b = (r * luma_wr + g * luma_wg + b * luma_wb + luma_round) / luma_div /\
+  0 <= lumaf r g b <= 255 /\ r * luma_wr + g * luma_wg + b * luma_wb + luma_round < 65536.
+Proof.
+  intros Hr Hg Hb. pose proof luma_consts as K. unfold luma_consts_ok in K. unfold lumaf, as_u8.
+  generalize dependent luma_wr. generalize dependent luma_wg. generalize dependent luma_wb.
+  generalize dependent luma_round. generalize dependent luma_div. intros dv rd wb wg wr K.
+  assert (0 <= r * wr + g * wg + b * wb + rd < 256 * dv) as Hs by nia.
+  assert (r * wr + g * wg + b * wb + rd < 65536) by nia.
+  assert (0 < dv) by lia.
+  assert (0 <= (r * wr + g * wg + b * wb + rd) / dv < 256) as Hq.
+  { split; [apply Z.div_pos; lia | apply Z.div_lt_upper_bound; lia]. }
+  rewrite Z.mod_small by lia. lia.
+Qed.
+
+Lemma lumaf_mono r1 g1 b1 r2 g2 b2 :
+  0 <= r1 <= r2 -> r2 <= 255 -> 0 <= g1 <= g2 -> g2 <= 255 -> 0 <= b1 <= b2 -> b2 <= 255 ->
+  lumaf r1 g1 b1 <= lumaf r2 g2 b2.
+Proof.
+  intros. destruct (lumaf_plain r1 g1 b1) as (-> & _); try lia. destruct (lumaf_plain r2 g2 b2) as (-> & _); try lia.
+  pose proof luma_consts as K. unfold luma_consts_ok in K.
+  apply Z.div_le_mono; [lia|]. nia.
+Qed.
+
+Lemma lumaf_gray g : 0 <= g <= 255 -> lumaf g g g = g.
+Proof.
+  intros Hg. destruct (lumaf_plain g g g) as (-> & _); try lia.
+  pose proof luma_consts as K. unfold luma_consts_ok in K.
+  replace (g * luma_wr + g * luma_wg + g * luma_wb + luma_round) with (luma_round + g * luma_div) by nia.
+  rewrite Z.div_add by lia. rewrite Z.div_small by lia. lia.
+Qed.
+
+(* ================================================================= 13. C13: rgb -> gray, rgb -> binary *)
+Lemma id_ok_rgb t : id_ok t = true -> c_id t = c_id via_rgb -> t = via_rgb.
+Proof.
+  unfold id_ok, crow_eqb. intros H E. apply Z.eqb_eq in E. rewrite E in H.
+  destruct (crow_eq_dec t via_rgb); [assumption | discriminate].
+Qed.
+Lemma id_ok_gray t : id_ok t = true -> c_id t = c_id via_gray -> t = via_gray.
+Proof.
+  unfold id_ok, crow_eqb. intros H E. apply Z.eqb_eq in E. rewrite E in H.
+  destruct (c_id via_gray =? c_id via_rgb); destruct (crow_eq_dec t via_gray); try assumption;
+    try discriminate; rewrite andb_false_r in H; discriminate.
+Qed.
+
+(* convert_channel between equal maxima is the identity (by definition) *)
+Lemma cc_same m v : convert_channel m m v = v.
+Proof. unfold convert_channel. rewrite Z.eqb_refl. reflexivity. Qed.
+
+(* `Rgb888::from(other)`: the reflexive impl (other is Rgb888) agrees with the channel-wise formula *)
+Lemma into_via_rgb a c : good_row a = true -> is_rgb a = true -> valid a c ->
+  let c' := into_or conv_rgb_rgb a via_rgb c in
+  valid via_rgb c' /\
+  get_r via_rgb c' = convert_channel (max_r a) 255 (get_r a c) /\
+  get_g via_rgb c' = convert_channel (max_g a) 255 (get_g a c) /\
+  get_b via_rgb c' = convert_channel (max_b a) 255 (get_b a c).
+Proof.
+  intros Ga Ra Hv. destruct (good_row_facts a Ga) as (Wa & Pa & Ia & _).
+  destruct via_facts as (Gv & Rv & Mr & Mg & Mb & _). destruct (good_row_facts _ Gv) as (Wv & Pv & _).
+  cbv zeta. unfold into_or. destruct (Z.eqb_spec (c_id a) (c_id via_rgb)) as [E | E].
+  - apply (id_ok_rgb a Ia) in E. subst a. rewrite Mr, Mg, Mb, !cc_same. auto.
+  - pose proof (conv_rgb_rgb_channels a via_rgb Wa Wv Pa Pv c Ra Rv Hv) as C. cbv zeta in C.
+    rewrite Mr, Mg, Mb in C. exact C.
+Qed.
+
+(* `Gray8::new(intensity).into()` *)
+Lemma from_via_gray b l : good_row b = true -> is_gray b = true -> 0 <= l <= 255 ->
+  let c' := into_or conv_gray_gray via_gray b (gray_new via_gray l) in
+  valid b c' /\ luma_of b c' = convert_channel 255 (max_luma b) l.
+Proof.
+  intros Gb Yb Hl. destruct (good_row_facts b Gb) as (Wb & Pb & Ib & _).
+  destruct via_facts as (_ & _ & _ & _ & _ & Gv & Yv & Ml & Bv). destruct (good_row_facts _ Gv) as (Wv & Pv & _).
+  destruct (gray_new_wf via_gray Wv Yv l) as (L & V & _). rewrite Bv, Z.mod_small in L by (change (2 ^ 8) with 256; lia).
+  cbv zeta. unfold into_or. destruct (Z.eqb_spec (c_id via_gray) (c_id b)) as [E | E].
+  - symmetry in E. apply (id_ok_gray b Ib) in E. subst b. rewrite Ml, cc_same. auto.
+  - pose proof (conv_gray_gray_channels via_gray b Wv Wb (gray_new via_gray l) Yv Yb V) as C. cbv zeta in C.
+    rewrite Ml, L in C. exact C.
+Qed.
+
+Lemma cc_to8 t c : row_wf t = true -> chan_pos t = true -> is_rgb t = true -> valid t c ->
+  0 <= convert_channel (max_r t) 255 (get_r t c) <= 255 /\
+  0 <= convert_channel (max_g t) 255 (get_g t c) <= 255 /\
+  0 <= convert_channel (max_b t) 255 (get_b t c) <= 255.
+Proof.
+  intros W P R V. destruct (rgb_max t W P R) as ((Hr & Er) & (Hg & Eg) & (Hb & Eb)).
+  destruct (rgb_chan_range t c W R V) as (Cr & Cg & Cb). rewrite Er in Cr. rewrite Eg in Cg. rewrite Eb in Cb.
+  assert (H8 : 1 <= 8 <= 8) by lia.
+  destruct (cc_spec _ _ _ Hr H8 Cr) as (B1 & _). destruct (cc_spec _ _ _ Hg H8 Cg) as (B2 & _).
+  destruct (cc_spec _ _ _ Hb H8 Cb) as (B3 & _). cbv zeta in *. rewrite Er, Eg, Eb.
+  change (2 ^ 8 - 1) with 255 in *. auto.
+Qed.
+
+Lemma luma_via_range a c : good_row a = true -> is_rgb a = true -> valid a c -> 0 <= luma_via a c <= 255.
+Proof.
+  intros Ga Ra Hv. destruct (good_row_facts a Ga) as (Wa & Pa & _).
+  destruct (cc_to8 a c Wa Pa Ra Hv) as (B1 & B2 & B3). apply lumaf_plain; assumption.
+Qed.
+
+Lemma conv_rgb_gray_luma a b c : good_row a = true -> good_row b = true -> is_rgb a = true -> is_gray b = true -> valid a c ->
+  let c' := conv_rgb_gray a b c in
+  valid b c' /\ luma_of b c' = convert_channel 255 (max_luma b) (luma_via a c).
+Proof.
+  intros Ga Gb Ra Yb Hv. destruct (into_via_rgb a c Ga Ra Hv) as (V & Er & Eg & Eb). cbv zeta in *.
+  unfold conv_rgb_gray. rewrite luma888_lumaf, Er, Eg, Eb. fold (luma_via a c).
+  apply from_via_gray; auto. apply luma_via_range; auto.
+Qed.
+
+Lemma conv_rgb_bin_luma a c : good_row a = true -> is_rgb a = true -> valid a c ->
+  conv_rgb_bin a c = bin_of_bool (luma_via a c >=? rgb_bin_threshold).
+Proof.
+  intros Ga Ra Hv. destruct (into_via_rgb a c Ga Ra Hv) as (V & Er & Eg & Eb). cbv zeta in *.
+  unfold conv_rgb_bin. rewrite luma888_lumaf, Er, Eg, Eb. reflexivity.
+Qed.
+
+(* ================================================================= 14. C13 over the regenerated table *)
+Lemma table_good : forallb good_row color_table = true.
+Proof. vm_cast_no_check (eq_refl true). Qed.
+Lemma in_table_good t : In t color_table -> good_row t = true.
+Proof. intros H. exact (proj1 (forallb_forall _ color_table) table_good t H). Qed.
+
+(* --- one channel *)
+Lemma c13_channel_nearest : forall fb tb v, 1 <= fb <= 8 -> 1 <= tb <= 8 -> 0 <= v <= 2 ^ fb - 1 ->
+  let fm := 2 ^ fb - 1 in let tm := 2 ^ tb - 1 in let r := convert_channel fm tm v in
+  0 <= r <= tm /\ 2 * Z.abs (r * fm - v * tm) <= fm.
+Proof. intros fb tb v Hf Ht Hv. destruct (cc_spec fb tb v Hf Ht Hv) as (B & N & _). auto. Qed.
+
+Lemma c13_channel_mono : forall fb tb v1 v2, 1 <= fb <= 8 -> 1 <= tb <= 8 -> 0 <= v1 -> v1 <= v2 -> v2 <= 2 ^ fb - 1 ->
+  convert_channel (2 ^ fb - 1) (2 ^ tb - 1) v1 <= convert_channel (2 ^ fb - 1) (2 ^ tb - 1) v2.
+Proof. exact cc_mono. Qed.
+
+Lemma pow2m1_ge1 n : 1 <= n -> 1 <= 2 ^ n - 1.
+Proof. intros H. pose proof (Z.pow_le_mono_r 2 1 n ltac:(lia) H). lia. Qed.
+
+Lemma c13_channel_ends : forall fb tb, 1 <= fb <= 8 -> 1 <= tb <= 8 ->
+  convert_channel (2 ^ fb - 1) (2 ^ tb - 1) 0 = 0 /\ convert_channel (2 ^ fb - 1) (2 ^ tb - 1) (2 ^ fb - 1) = 2 ^ tb - 1.
+Proof.
+  intros fb tb Hf Ht. pose proof (pow2m1_ge1 fb ltac:(lia)).
+  destruct (cc_spec fb tb 0 Hf Ht ltac:(lia)) as (_ & _ & E0 & _).
+  destruct (cc_spec fb tb (2 ^ fb - 1) Hf Ht ltac:(lia)) as (_ & _ & _ & E1 & _). auto.
+Qed.
+
+Lemma c13_widen_narrow_id : forall fb tb v, 1 <= fb <= 8 -> 1 <= tb <= 8 -> fb <= tb -> 0 <= v <= 2 ^ fb - 1 ->
+  convert_channel (2 ^ tb - 1) (2 ^ fb - 1) (convert_channel (2 ^ fb - 1) (2 ^ tb - 1) v) = v.
+Proof. intros fb tb v Hf Ht Hle Hv. destruct (cc_spec fb tb v Hf Ht Hv) as (_ & _ & _ & _ & E & _). auto. Qed.
+
+(* no intermediate of convert_channel leaves u32 (conversion.rs:13-16) *)
+Lemma c13_channel_no_overflow : forall fb tb v, 1 <= fb <= 8 -> 1 <= tb <= 8 -> 0 <= v <= 2 ^ fb - 1 ->
+  v * (Z.shiftl (2 ^ tb - 1) cc_shift / (2 ^ fb - 1)) + Z.shiftl cc_half_base (cc_shift - cc_half_sub) < 2 ^ 32.
+Proof. intros fb tb v Hf Ht Hv. destruct (cc_spec fb tb v Hf Ht Hv) as (_ & _ & _ & _ & _ & E). auto. Qed.
+
+(* the channel maxima of every row are 2^bits - 1 with 1 <= bits <= 8: the rows are instances of the channel theorems *)
+Lemma c13_table_widths : forall t, In t color_table ->
+  (is_rgb t = true -> (1 <= rbits t <= 8 /\ max_r t = 2 ^ rbits t - 1) /\ (1 <= gbits t <= 8 /\ max_g t = 2 ^ gbits t - 1) /\
+                      (1 <= bbits t <= 8 /\ max_b t = 2 ^ bbits t - 1)) /\
+  (is_gray t = true -> 1 <= bpp t <= 8 /\ max_luma t = 2 ^ bpp t - 1).
+Proof.
+  intros t Ht. destruct (good_row_facts t (in_table_good t Ht)) as (W & P & _). split.
+  - intros R. apply rgb_max; assumption.
+  - intros G. destruct (gray_max t W G) as (? & ? & _). auto.
+Qed.
+
+(* --- black and white *)
+Definition bw_check (t : crow) : bool :=
+  let k := color_black t in let w := color_white t in
+  (0 <=? k) && (k <? 2 ^ used_bits t) && (0 <=? w) && (w <? 2 ^ used_bits t) &&
+  match c_kind t with
+  | KRgb _ _ _ _ => (get_r t k =? 0) && (get_g t k =? 0) && (get_b t k =? 0) &&
+                    (get_r t w =? max_r t) && (get_g t w =? max_g t) && (get_b t w =? max_b t)
+  | KGray => (luma_of t k =? 0) && (luma_of t w =? max_luma t)
+  | KBinary => (k =? bin_off) && (w =? bin_on)
+  end.
+Lemma table_bw : forallb bw_check color_table = true.
+Proof. vm_cast_no_check (eq_refl true). Qed.
+
+Lemma c13_black_white_channels : forall t, In t color_table ->
+  valid t (color_black t) /\ valid t (color_white t) /\
+  (is_rgb t = true -> (get_r t (color_black t) = 0 /\ get_g t (color_black t) = 0 /\ get_b t (color_black t) = 0) /\
+                      (get_r t (color_white t) = max_r t /\ get_g t (color_white t) = max_g t /\ get_b t (color_white t) = max_b t)) /\
+  (is_gray t = true -> luma_of t (color_black t) = 0 /\ luma_of t (color_white t) = max_luma t) /\
+  (c_kind t = KBinary -> color_black t = bin_off /\ color_white t = bin_on).
+Proof.
+  intros t Ht. pose proof (proj1 (forallb_forall _ color_table) table_bw t Ht) as H. unfold bw_check in H.
+  unfold valid, is_rgb, is_gray. destruct (c_kind t); repeat split; intros; try discriminate; lia.
+Qed.
+
+Definition pair_bw_check (p : family * crow * crow) : bool :=
+  let '(f, a, b) := p in
+  (convert f a b (color_black a) =? color_black b) && (convert f a b (color_white a) =? color_white b).
+Lemma pairs_bw : forallb pair_bw_check conv_pairs = true.
+Proof. vm_cast_no_check (eq_refl true). Qed.
+
+Lemma c13_black_white : forall f a b, In (f, a, b) conv_pairs ->
+  convert f a b (color_black a) = color_black b /\ convert f a b (color_white a) = color_white b.
+Proof.
+  intros f a b H. pose proof (proj1 (forallb_forall _ conv_pairs) pairs_bw _ H) as W. cbn in W. lia.
+Qed.
+
+(* --- rgb -> rgb *)
+Lemma rgb_pair_facts a b : In (FRgbRgb, a, b) conv_pairs ->
+  row_wf a = true /\ row_wf b = true /\ chan_pos a = true /\ chan_pos b = true /\ is_rgb a = true /\ is_rgb b = true.
+Proof.
+  intros H. destruct (pair_facts _ _ _ H) as (Ga & Gb & _ & K). cbn in K. apply andb_prop in K.
+  destruct (good_row_facts a Ga) as (? & ? & _). destruct (good_row_facts b Gb) as (? & ? & _). tauto.
+Qed.
+
+Lemma nearest_of_cc fb tb v fm tm : 1 <= fb <= 8 -> 1 <= tb <= 8 -> fm = 2 ^ fb - 1 -> tm = 2 ^ tb - 1 -> 0 <= v <= fm ->
+  2 * Z.abs (convert_channel fm tm v * fm - v * tm) <= fm.
+Proof. intros Hf Ht -> -> Hv. apply (cc_spec fb tb v Hf Ht Hv). Qed.
+
+Lemma mono_of_cc fb tb v1 v2 fm tm : 1 <= fb <= 8 -> 1 <= tb <= 8 -> fm = 2 ^ fb - 1 -> tm = 2 ^ tb - 1 ->
+  0 <= v1 <= fm -> 0 <= v2 <= fm -> v1 <= v2 -> convert_channel fm tm v1 <= convert_channel fm tm v2.
+Proof. intros Hf Ht -> -> H1 H2 H12. apply cc_mono; lia. Qed.
+
+Lemma c13_rgb_rgb_nearest : forall a b, In (FRgbRgb, a, b) conv_pairs -> forall c, valid a c ->
+  let c' := convert FRgbRgb a b c in
+  valid b c' /\
+  2 * Z.abs (get_r b c' * max_r a - get_r a c * max_r b) <= max_r a /\
+  2 * Z.abs (get_g b c' * max_g a - get_g a c * max_g b) <= max_g a /\
+  2 * Z.abs (get_b b c' * max_b a - get_b a c * max_b b) <= max_b a.
+Proof.
+  intros a b H c Hv. destruct (rgb_pair_facts a b H) as (Wa & Wb & Pa & Pb & Ra & Rb).
+  cbv zeta. cbn [convert].
+  destruct (conv_rgb_rgb_channels a b Wa Wb Pa Pb c Ra Rb Hv) as (V & -> & -> & ->).
+  destruct (rgb_max a Wa Pa Ra) as ((? & ?) & (? & ?) & (? & ?)). destruct (rgb_max b Wb Pb Rb) as ((? & ?) & (? & ?) & (? & ?)).
+  destruct (rgb_chan_range a c Wa Ra Hv) as (? & ? & ?).
+  split; [exact V|]. split; [|split].
+  - apply (nearest_of_cc (rbits a) (rbits b)); assumption.
+  - apply (nearest_of_cc (gbits a) (gbits b)); assumption.
+  - apply (nearest_of_cc (bbits a) (bbits b)); assumption.
+Qed.
+
+(* every output channel depends on the same input channel only, monotonically *)
+Lemma c13_rgb_rgb_mono : forall a b, In (FRgbRgb, a, b) conv_pairs -> forall c1 c2, valid a c1 -> valid a c2 ->
+  (get_r a c1 <= get_r a c2 -> get_r b (convert FRgbRgb a b c1) <= get_r b (convert FRgbRgb a b c2)) /\
+  (get_g a c1 <= get_g a c2 -> get_g b (convert FRgbRgb a b c1) <= get_g b (convert FRgbRgb a b c2)) /\
+  (get_b a c1 <= get_b a c2 -> get_b b (convert FRgbRgb a b c1) <= get_b b (convert FRgbRgb a b c2)).
+Proof.
+  intros a b H c1 c2 Hv1 Hv2. destruct (rgb_pair_facts a b H) as (Wa & Wb & Pa & Pb & Ra & Rb).
+  destruct (conv_rgb_rgb_channels a b Wa Wb Pa Pb c1 Ra Rb Hv1) as (_ & E1 & E2 & E3).
+  destruct (conv_rgb_rgb_channels a b Wa Wb Pa Pb c2 Ra Rb Hv2) as (_ & F1 & F2 & F3). cbn [convert].
+  rewrite E1, E2, E3, F1, F2, F3.
+  destruct (rgb_max a Wa Pa Ra) as ((? & ?) & (? & ?) & (? & ?)). destruct (rgb_max b Wb Pb Rb) as ((? & ?) & (? & ?) & (? & ?)).
+  destruct (rgb_chan_range a c1 Wa Ra Hv1) as (? & ? & ?). destruct (rgb_chan_range a c2 Wa Ra Hv2) as (? & ? & ?).
+  split; [|split]; intros.
+  - apply (mono_of_cc (rbits a) (rbits b)); assumption.
+  - apply (mono_of_cc (gbits a) (gbits b)); assumption.
+  - apply (mono_of_cc (bbits a) (bbits b)); assumption.
+Qed.
+
+(* equal depth (in particular RGB <-> BGR): all channels are kept *)
+Lemma c13_same_depth_keeps_channels : forall a b, In (FRgbRgb, a, b) conv_pairs ->
+  rbits a = rbits b -> gbits a = gbits b -> bbits a = bbits b -> forall c, valid a c ->
+  get_r b (convert FRgbRgb a b c) = get_r a c /\ get_g b (convert FRgbRgb a b c) = get_g a c /\
+  get_b b (convert FRgbRgb a b c) = get_b a c.
+Proof.
+  intros a b H Er Eg Eb c Hv. destruct (rgb_pair_facts a b H) as (Wa & Wb & Pa & Pb & Ra & Rb). cbn [convert].
+  destruct (conv_rgb_rgb_channels a b Wa Wb Pa Pb c Ra Rb Hv) as (_ & -> & -> & ->).
+  destruct (rgb_max a Wa Pa Ra) as ((_ & ->) & (_ & ->) & (_ & ->)). destruct (rgb_max b Wb Pb Rb) as ((_ & ->) & (_ & ->) & (_ & ->)).
+  rewrite Er, Eg, Eb, !cc_same. auto.
+Qed.
+
+(* to a type with at least as many bits in every channel, and back: identity *)
+Lemma c13_rgb_widen_narrow_id : forall a b, In (FRgbRgb, a, b) conv_pairs -> In (FRgbRgb, b, a) conv_pairs ->
+  rbits a <= rbits b -> gbits a <= gbits b -> bbits a <= bbits b -> forall c, valid a c ->
+  convert FRgbRgb b a (convert FRgbRgb a b c) = c.
+Proof.
+  intros a b H H' Lr Lg Lb c Hv. destruct (rgb_pair_facts a b H) as (Wa & Wb & Pa & Pb & Ra & Rb).
+  destruct (conv_rgb_rgb_channels a b Wa Wb Pa Pb c Ra Rb Hv) as (V & E1 & E2 & E3). cbn [convert] in *.
+  unfold conv_rgb_rgb at 1. rewrite E1, E2, E3.
+  destruct (rgb_max a Wa Pa Ra) as ((Har & Ear) & (Hag & Eag) & (Hab & Eab)).
+  destruct (rgb_max b Wb Pb Rb) as ((Hbr & Ebr) & (Hbg & Ebg) & (Hbb & Ebb)).
+  destruct (rgb_chan_range a c Wa Ra Hv) as (Cr & Cg & Cb).
+  rewrite Ear, Eag, Eab, Ebr, Ebg, Ebb in *.
+  rewrite !c13_widen_narrow_id by assumption.
+  apply (new_of_channels_wf a Wa Ra c Hv).
+Qed.
